@@ -212,6 +212,24 @@ def read_job(job):
                         same.append('%r read alone is not the document\'s object' % line)
                     if isinstance(o, bc.ReactionS) and o not in out['det_reactions'] and o not in out['con_reactions']:
                         same.append('%r read alone is not in the reaction sets' % line)
+                    # a complex statement declares its concentration: the same line with ANOTHER value, read while the complex
+                    # is alive, leaves the complex with exactly the newly declared triple (and the original line restores it)
+                    import re as _re
+                    m = _re.search(r'@\s*(initial|constant|i|c)\s+(\S+)\s+(\S+)\s*$', line)
+                    if m and type(o) is bc.ComplexS and o.concentration is not None:
+                        new = '7.25' if m.group(2) != '7.25' else '3.5'
+                        try:
+                            o2 = objectio.read_pil_line(line[:m.start(2)] + new + line[m.end(2):])
+                            c2 = o2.concentration if o2 is o else None
+                            if c2 is None or float(c2[1]) != float(new) or c2[2] != m.group(3):
+                                same.append('%r re-declared with concentration %s while alive: concentration is %r' % (line, new, c2))
+                            o3 = objectio.read_pil_line(line)
+                            c3 = o3.concentration if o3 is o else None
+                            if c3 is None or float(c3[1]) != float(m.group(2)) or c3[2] != m.group(3):
+                                same.append('%r declared again after another value: concentration is %r' % (line, c3))
+                            del o2, o3
+                        except Exception as e:
+                            same.append('%r re-declared with another concentration raised %s' % (line, type(e).__name__)); e = None
                     del o
                 res['line_vs_doc'] = same
         if job.get('again'):
